@@ -231,7 +231,9 @@ def ttml(rng):
         # open-ended cues in different regions at the end of the programme
         t0 = rng.choice(["10s", "20s", "00:00:30.000"])
         for rid in rng.sample(ctx["regions"], 2):
-          ps.append('<p begin="%s" region="%s">%s</p>' % (t0 if rng.random() < 0.7 else "25s", rid, rng.choice(["tail A", "tail <span>B</span>", "x<br/>y"])))
+          for _k in range(rng.choice([1, 2, 2])):
+            end = rng.choice(["", "", ' end="40s"'])
+            ps.append('<p begin="%s"%s region="%s">%s</p>' % (t0 if rng.random() < 0.7 else "25s", end, rid, rng.choice(["tail A", "tail <span>B</span>", "x<br/>y"])))
       sep = rng.choice(["", "\n  "])
       divs.append("<div%s>%s</div>" % (_attrs(_timing(rng, 0.3) + _styles(rng, rng.choice([0, 0, 1])) + _common(rng, ctx)), sep.join(ps)))
     a = _timing(rng, 0.2) + _styles(rng, rng.choice([0, 0, 1])) + _common(rng, ctx)
